@@ -40,6 +40,8 @@ _WRITE_ERR = {
     "EPIPE": (BrokenPipeError, errno.EPIPE, "Broken pipe"),
     "ECONNRESET": (ConnectionResetError, errno.ECONNRESET, "Connection reset by peer"),
     "ETIMEDOUT": (TimeoutError, errno.ETIMEDOUT, "Connection timed out"),
+    "EHOSTUNREACH": (OSError, errno.EHOSTUNREACH, "No route to host"),
+    "ENETUNREACH": (OSError, errno.ENETUNREACH, "Network is unreachable"),
 }
 
 
